@@ -57,9 +57,30 @@ pub open spec fn depots_ok(net: &Network) -> bool {
                 && sp_depot_idx(net, sp_end_depot_node(net, d)) == d
 }
 
-/// the vehicles in the order `Schedule::vehicles_iter_all` yields them (per vehicle type of the
-/// network, the type's sorted id list)
-pub uninterp spec fn sched_vehicles(s: &Schedule) -> Seq<VehicleIdx>;
+/// the id lists of the given types, one after the other
+pub open spec fn listing_of(types: Seq<VehicleTypeIdx>, lists: Map<VehicleTypeIdx, Vec<VehicleIdx>>) -> Seq<VehicleIdx>
+    decreases types.len(),
+{
+    if types.len() == 0 { Seq::empty() } else { listing_of(types.drop_last(), lists) + lists[types.last()]@ }
+}
+/// the vehicles in the order `Schedule::vehicles_iter_all` yields them: per vehicle type of the network (in the
+/// order of `VehicleTypes::iter`), the type's sorted id list -- the body of vehicles_iter_all is
+/// `vehicle_types().iter().collect::<Vec<_>>().into_iter().flat_map(|vt| self.vehicles_iter(vt))` with
+/// `vehicles_iter(vt) = self.vehicle_ids_grouped_and_sorted[&vt].iter().copied()` (A-iter: flat_map concatenates).
+/// Opaque: the slices use it as an atom; lemma_sched_vehicles_frame is what they need of the definition.
+#[verifier::opaque]
+pub open spec fn sched_vehicles(s: &Schedule) -> Seq<VehicleIdx> {
+    listing_of(s.network.vehicle_types.ids_sorted@, s.vehicle_ids_grouped_and_sorted@)
+}
+/// the listing only depends on the network's vehicle types and on the id lists
+pub proof fn lemma_sched_vehicles_frame(a: &Schedule, b: &Schedule)
+    requires
+        a.network.vehicle_types.ids_sorted@ == b.network.vehicle_types.ids_sorted@,
+        a.vehicle_ids_grouped_and_sorted@ == b.vehicle_ids_grouped_and_sorted@,
+    ensures sched_vehicles(a) == sched_vehicles(b),
+{
+    reveal(sched_vehicles);
+}
 
 /// magnitude of the schedule's cost figure (2^61) and of one leg's cost (lemma_leg_facts)
 pub open spec fn sched_cost_bound() -> int { 0x2000_0000_0000_0000 }
